@@ -141,7 +141,7 @@ func runC33(c *Ctx) {
 	for k, v := range base {
 		r.Count("trusted_base_sites_"+k, v)
 	}
-	r.Floor("C33.2", 10)
+	r.Floor("C33.2", 6) // 10 on the pinned tree; removing an indexing site is not a violation
 	r.Floor("C33.5", 1)
 
 	// ---- C33.3 consumers on client paths
